@@ -119,6 +119,18 @@ class Handles:
         rep.ob(rule2, b.id, "Current is relative to the cursor", c_pos, "" if c_pos else "the Current arm never reads the cursor", b.span)
         rep.ob(rule2, b.id, "Current does not depend on the length", not c_len, "" if not c_len else
                "the Current arm reads the content length", c_len[0][1] if c_len else b.span)
+        # the offset of End / Current enters the target as given: an arm that clamps it (`min(offset, 0)`: "nothing to address behind
+        # the end") parks the cursor somewhere else than a cursor would, and the position reported and every later relative seek differ
+        CLAMPS = ("cmp::min", "cmp::max", "Ord::min", "Ord::max", "Ord::clamp", "i64::abs", "i64::saturating_abs", "i64::signum",
+                  "i64::saturating_neg", "i64::rem_euclid", "i64::min", "i64::max", "i64::clamp")
+        for arm in ("Current", "End"):
+            clamped = [(t, l) for t, l, _ in arms[arm] for x in walk(norm(t))
+                       if x[0] == "call" and isinstance(x[1], str) and x[1] in CLAMPS and
+                       any(y[0] == "vfield" and y[2] == arm for a_ in x[2] for y in walk(a_))]
+            n += 1
+            rep.ob(rule2, b.id, "%s(o): the offset is used as given" % arm, not clamped, "" if not clamped else
+                   "the %s arm passes its offset through %s: targets on one side are moved (seeking past the end is allowed, and the "
+                   "position returned is the one asked for)" % (arm, fmt(clamped[0][0])[:50]), clamped[0][1] if clamped else b.span)
         # Start: the payload becomes the position
         s_ok = False
         for blk in b.blocks:
@@ -282,6 +294,30 @@ class Handles:
                     retn = True
         n += 1
         rep.ob(rule, b.id, "returns n", retn, "", b.span)
+        # ... and nothing else: a constant count (the early `Ok(0)`) is answered only where the window is known to be empty — under a
+        # branch on the buffer's length or on content length vs position.  A zero decided by other state of the handle (a "reached
+        # the end once" flag) withholds bytes that a seek has made readable again
+        for ct, _, bb in self.inter.ret_cases(b):
+            c = norm(ct)
+            if c[0] == "agg" and c[2] == "Ready" and c[3]:
+                c = c[3][0][1]
+            if not (c[0] == "agg" and c[2] == "Ok" and c[3]):
+                continue
+            v = c[3][0][1]
+            if nterm is not None and v == nterm:
+                continue
+            windowish = False
+            for g in self.D.guards(b, bb):
+                if len(g) > 1 and isinstance(g[1], tuple):
+                    for x in walk(g[1]):
+                        if (x[0] == "field" and x[2] == self.pos_field) or \
+                                (x[0] == "call" and x[1] in ("slice::len", "slice::is_empty") and x[2] and x[2][0][0] == "arg" and x[2][0][1] == buf_arg):
+                            windowish = True
+            okc = v == ("int", 0) and windowish
+            n += 1
+            rep.ob(rule, b.id, "a count other than n is 0 for an empty window", okc, "" if okc else
+                   "read answers %s on a path where neither the buffer's length nor position vs length was tested: the count is decided by "
+                   "other state of the handle" % fmt(v)[:40], b.blocks[bb].term.line if bb < len(b.blocks) else b.span)
         # the one-byte arm (if any) reads the same start
         for blk in b.calls():
             t = blk.term
@@ -449,6 +485,11 @@ class Handles:
             t = blk.term
             a = [norm(tr.operand(x)) for x in t.args]
             key, val = a[1], a[2]
+            if val[0] == "call":
+                # the record is built by a private function of the same file (`flushed_file(previous, content)`): read through it,
+                # its parameters replaced by the actual arguments
+                val = norm(self.inter.inline_ret(val, depth=2, pred=lambda hb_: hb_.kind != "Closure" and hb_.vis != "pub" and
+                                                 hb_.file == target.file and not (hb_.impl and hb_.impl.get("trait"))))
             okk = key[0] == "field" and key[2] == dest_field
             n += 1
             rep.ob(rule_pub, target.id, "published under the destination captured at creation", okk, fmt(key)[:40], t.line)
@@ -458,7 +499,7 @@ class Handles:
             okt = d.get("file_type", ("",))[0] == "agg" and d["file_type"][2] == "File"
             # ... the whole buffer, not a window of it: nothing between the cursor's buffer and the published value slices,
             # truncates or takes a prefix (a session that seeks back and patches a header must not lose what lies behind the cursor)
-            cut = [short(x[1]) if isinstance(x[1], str) else "?" for x in walk(content or ()) if x[0] == "call" and isinstance(x[1], str) and
+            cut = [short(x[1]) if isinstance(x[1], str) else "?" for x in (walk(content) if content else ()) if x[0] == "call" and isinstance(x[1], str) and
                    short(x[1]) in ("Index::index", "IndexMut::index_mut", "slice::split_at", "Vec::truncate", "Vec::split_off", "Vec::drain",
                                    "slice::get", "Iterator::take", "slice::first", "slice::chunks", "Read::take", "Cursor::position")]
             # ... nor is the buffer (or the copy of it that gets published) shortened in place on the way
@@ -473,7 +514,7 @@ class Handles:
             # ... and nothing of what is stored under the destination flows into them: a handle's buffer already starts with the bytes the
             # file had when it was opened; merging the stored content in again ("keep what was appended in the meantime") makes a
             # second flush of the same handle append its own bytes twice
-            stale = [x for x in walk(content or ()) if x[0] == "field" and x[2] == "content" and
+            stale = [x for x in (walk(content) if content else ()) if x[0] == "field" and x[2] == "content" and
                      any(y[0] == "call" and y[1] in ("HashMap::get", "HashMap::get_mut") for y in walk(x[1]))]
             n += 1
             rep.ob(rule_pub, target.id, "published content does not come from the stored entry", not stale, "" if not stale else
